@@ -27,6 +27,9 @@ fn index(d: &[u8], pos: usize) -> Result<(Vec<(usize, usize)>, usize), String> {
         Ok(b.iter().fold(0usize, |a, x| a * 256 + *x as usize))
     };
     let base = pos + 3 + (cnt + 1) * os - 1;
+    if rd(0)? != 1 {
+        return Err("INDEX: first offset is not 1".into());
+    }
     let mut v = vec![];
     for i in 0..cnt {
         let (a, b) = (rd(i)?, rd(i + 1)?);
@@ -37,6 +40,46 @@ fn index(d: &[u8], pos: usize) -> Result<(Vec<(usize, usize)>, usize), String> {
     }
     let end = base + rd(cnt)?;
     Ok((v, end))
+}
+
+/// raw INDEX header (count, offSize, offset array) without any validation, for the Coq-side `cff_index_ok`
+fn index_hdr(d: &[u8], pos: usize) -> Vec<u8> {
+    let Some(c) = d.get(pos..pos + 2) else { return vec![] };
+    let cnt = u16::from_be_bytes([c[0], c[1]]) as usize;
+    if cnt == 0 {
+        return c.to_vec();
+    }
+    let os = *d.get(pos + 2).unwrap_or(&0) as usize;
+    let end = (pos + 3 + (cnt + 1) * os.min(4)).min(d.len());
+    d[pos..end].to_vec()
+}
+
+/// subset-sum: indices of `lens` (each used at most once) adding up to exactly `target`
+fn subset_sum(lens: &[usize], target: usize) -> Option<Vec<usize>> {
+    let mut from: Vec<Option<(usize, usize)>> = vec![None; target + 1]; // sum -> (item, previous sum)
+    let mut reach = vec![false; target + 1];
+    reach[0] = true;
+    for (i, &l) in lens.iter().enumerate() {
+        if l == 0 || l > target {
+            continue;
+        }
+        for s in (l..=target).rev() {
+            if reach[s - l] && !reach[s] && from[s - l].map_or(true, |(j, _)| j != i) {
+                reach[s] = true;
+                from[s] = Some((i, s - l));
+            }
+        }
+    }
+    if !reach[target] {
+        return None;
+    }
+    let (mut v, mut s) = (vec![], target);
+    while s > 0 {
+        let (i, p) = from[s]?;
+        v.push(i);
+        s = p;
+    }
+    Some(v)
 }
 
 /// own DICT reader: operator (escaped ops as 1200+b) -> integer operands (reals as i64::MIN markers)
@@ -160,7 +203,7 @@ fn calls_subr(cs: &[u8]) -> bool {
 
 pub fn run(ctx: &Ctx) {
     let header = "From OxVerif Require Import Base.Util C12.Model.";
-    let mut out = Out::new(ctx, header, "bool * list (N * bytes * bytes * N * N)", "cff_code");
+    let mut out = Out::new(ctx, header, "bool * list (bytes * N) * list (N * bytes * bytes * N * N)", "cff_code");
     out.shard_size = 4;
     let data = match std::fs::read(super::SOURCESANS) {
         Ok(d) => d,
@@ -206,6 +249,63 @@ pub fn run(ctx: &Ctx) {
                 v.push(cs);
             }
         }
+        // INDEX offSize boundaries: character sets whose kept charstrings (subroutines inlined, .notdef included)
+        // total exactly 254 / 255 / 256 and 65534 / 65535 / 65536 bytes — the last offset of the rebuilt
+        // CharStrings INDEX is then 255 / 256 / 257 resp. 65535 / 65536 / 65537
+        let dlen = |g: u16| -> usize {
+            let (a, b) = po.charstrings[g as usize];
+            desubroutinize(&cff_o[a..b], &gs, cff_o, &ls, cff_o).map(|v| v.len()).unwrap_or(0)
+        };
+        let mut seen = std::collections::BTreeSet::new();
+        let mut cand: Vec<(u32, usize)> = vec![]; // one character per glyph, with its inlined charstring length
+        for (&cp, &g) in &ocmap {
+            if g != 0 && seen.insert(g) {
+                cand.push((cp, dlen(g)));
+            }
+        }
+        let notdef = dlen(0);
+        let small: &[usize] = if ctx.thorough() { &[254, 255, 255, 255, 256, 256, 257] } else { &[254, 255, 255, 256] };
+        for &t in small {
+            for _try in 0..20 {
+                let mut pool: Vec<(u32, usize)> = (0..60).map(|_| *r.pick(&cand)).collect();
+                pool.sort();
+                pool.dedup();
+                let lens: Vec<usize> = pool.iter().map(|p| p.1).collect();
+                if t <= notdef {
+                    break;
+                }
+                if let Some(ix) = subset_sum(&lens, t - notdef) {
+                    let mut cs: Vec<u32> = ix.iter().map(|&i| pool[i].0).collect();
+                    cs.sort();
+                    v.push(cs);
+                    break;
+                }
+            }
+        }
+        let bigs: &[usize] = if ctx.thorough() { &[65534, 65535, 65535, 65536] } else { &[65535, 65536] };
+        for &t in bigs {
+            // shuffle, take glyphs greedily until less than 1500 bytes are missing, finish with an exact subset-sum
+            let mut order = cand.clone();
+            for i in (1..order.len()).rev() {
+                let j = r.below(i as u64 + 1) as usize;
+                order.swap(i, j);
+            }
+            let mut total = notdef;
+            let mut cs = vec![];
+            let mut k = 0;
+            while k < order.len() && total + order[k].1 + 1500 < t {
+                total += order[k].1;
+                cs.push(order[k].0);
+                k += 1;
+            }
+            let rest = &order[k..];
+            let lens: Vec<usize> = rest.iter().take(300).map(|p| p.1).collect();
+            if let Some(ix) = subset_sum(&lens, t - total) {
+                cs.extend(ix.iter().map(|&i| rest[i].0));
+                cs.sort();
+                v.push(cs);
+            }
+        }
         v
     };
     for chars in sets {
@@ -226,14 +326,52 @@ pub fn run(ctx: &Ctx) {
         if !res.is_raw_cff {
             // full font returned: mapping must be the original cmap on the requested characters
             let ok = res.font_data == data && chars.iter().all(|c| ocmap.get(c).copied() == res.glyph_mapping.get(c).copied());
-            out.push(format!("({}, nil)", coq_bool(ok)), js, "cff/full", false);
+            out.push(format!("({}, nil, nil)", coq_bool(ok)), js, "cff/full", false);
             continue;
         }
         let sub = &res.font_data;
+        // raw headers of the rebuilt INDEXes with the room the font's own offsets leave for each of them:
+        // Global Subr INDEX up to the charset, CharStrings INDEX up to the FDArray, FDArray INDEX up to the Private DICT
+        let idx_coq = {
+            let hdr = *sub.get(2).unwrap_or(&4) as usize;
+            let mut v: Vec<(usize, usize)> = vec![]; // (position, next structure)
+            // the header INDEXes follow each other: read their ends leniently (count/offSize/last offset as written)
+            let lenient_end = |pos: usize| -> usize {
+                let h = index_hdr(sub, pos);
+                if h.len() <= 2 {
+                    return pos + 2;
+                }
+                let os = h[2] as usize;
+                if os == 0 || os > 4 || h.len() < 3 + os {
+                    return pos + 3;
+                }
+                let last = h[h.len() - os..].iter().fold(0usize, |a, x| a * 256 + *x as usize);
+                pos + h.len() + last.saturating_sub(1)
+            };
+            let e1 = lenient_end(hdr);
+            let e2 = lenient_end(e1);
+            let e3 = lenient_end(e2);
+            let top = index(sub, e1).ok().and_then(|(t, _)| t.first().copied()).map(|(a, b)| dict(&sub[a..b])).unwrap_or_default();
+            let off = |op: u16| top.get(&op).and_then(|v| v.last()).map(|&x| x as usize);
+            v.push((hdr, e1));
+            v.push((e1, e2));
+            v.push((e2, e3));
+            if let Some(cs) = off(15) {
+                v.push((e3, cs));
+            }
+            if let (Some(cso), Some(fda)) = (off(17), off(1236)) {
+                v.push((cso, fda));
+                let fd = index(sub, fda).ok().and_then(|(t, _)| t.first().copied()).map(|(a, b)| dict(&sub[a..b])).unwrap_or_default();
+                if let Some(pv) = fd.get(&18).filter(|v| v.len() == 2) {
+                    v.push((fda, pv[1] as usize));
+                }
+            }
+            v.iter().map(|&(p, n)| format!("({}, {}) :: ", coq_bytes(&index_hdr(sub, p)), n.saturating_sub(p))).collect::<String>() + "nil"
+        };
         let ps = match parse_cff(sub) {
             Ok(p) => p,
             Err(e) => {
-                out.push("(false, nil)".into(), js.clone(), "cff/unparseable", true);
+                out.push(format!("(false, {idx_coq}, nil)"), js.clone(), "cff/unparseable", true);
                 if std::env::var("OXH_C12_TRACE").is_ok() {
                     eprintln!("subset CFF does not parse: {e}");
                 }
@@ -270,8 +408,10 @@ pub fn run(ctx: &Ctx) {
                 break; // keep the literal small; the sample is the first 16 mapped characters in code order
             }
         }
-        let coq = format!("({}, {}nil)", coq_bool(struct_ok), rows.iter().map(|r| format!("{r} :: ")).collect::<String>());
-        out.push(coq, js, "cff/subset", true);
+        let coq = format!("({}, {}, {}nil)", coq_bool(struct_ok), idx_coq, rows.iter().map(|r| format!("{r} :: ")).collect::<String>());
+        let total: usize = ps.charstrings.iter().map(|&(a, b)| b - a).sum();
+        let label = if [254, 255, 256, 65534, 65535, 65536].contains(&total) { "cff/subset/offsize_boundary" } else { "cff/subset" };
+        out.push(coq, js, label, true);
     }
     out.finish("cff");
 }
